@@ -172,3 +172,27 @@ fn k_slice_builder_copy_wrong_length_panics() {
         assert!(false, "[heap] unreachable: copy_slice must have panicked");
     }
 }
+
+
+/// write_slice_with for ZERO-SIZED elements: the constructor still runs once per element, in order, and completing registers exactly n elements
+/// (pointer-cursor loops degenerate for ZSTs: `next != end` is false from the start)
+#[kani::proof]
+#[kani::unwind(6)]
+fn k_slice_builder_write_slice_with_zst() {
+    static mut MADE: u8 = 0; static mut GONE: u8 = 0;
+    struct Z;
+    impl Drop for Z { fn drop(&mut self) { unsafe { GONE += 1; } } }
+    unsafe impl<'gc> crate::Collect<'gc> for Z { const NEEDS_TRACE: bool = false; }
+    unsafe {
+        MADE = 0; GONE = 0;
+        let cx = Context::new();
+        let mc = cx.mutation_context();
+        let n: usize = kani::any(); kani::assume(n <= 3);
+        let sb = GcSliceWithHeaderBuilder::<Static<u8>, Z>::new(n).write_header(Static(9));
+        let mut calls = 0usize;
+        let g = sb.write_slice_with(mc, |i| { assert!(i == calls, "[heap] elements are created in order"); calls += 1; MADE += 1; Z });
+        assert!(calls == n && g.slice.len() == n, "[heap] the element constructor runs once per element also for zero-sized elements");
+        drop(cx);
+        assert!(MADE as usize == n && GONE as usize == n, "[heap] exactly the elements that were created are destructed");
+    }
+}
